@@ -12,6 +12,7 @@ src="/tmp/seed/out/$id/$m"; dst="/verif/seeded/$id-$m"
 [ -d "$src" ] || src="/tmp/seed6/out/$id/$m"
 [ -d "$src" ] || src="/tmp/seed7/out/$id/$m"
 [ -d "$src" ] || src="/tmp/seed8/out/$id/$m"
+[ -d "$src" ] || src="/tmp/seed9/out/$id/$m"
 [ -d "$src" ] || src="$dst"
 [ -f "$src/patch.diff" ] || { echo "no patch in $src"; exit 2; }
 mkdir -p "$dst"; [ "$src" != "$dst" ] && [ ! -f "$dst/patch.diff" ] && cp "$src"/patch.diff "$src"/demo_test.go "$src"/meta.json "$dst"/ 2>/dev/null
